@@ -341,6 +341,8 @@ theorem lowerOf_lowerHost (h0 nl : Str) (h : h0 ⊆ nl) : LowerOf (lowerHost h0)
 structure NetlocFacts (nl : Str) : Prop where
   user_sub : ∀ u, username nl = some u → u ⊆ nl ∧ ':' ∉ u
   pass_sub : ∀ pw, password nl = some pw → pw ⊆ nl
+  user_ui : ∀ u, username nl = some u → u ⊆ (splitLast nl '@').1.getD []
+  pass_ui : ∀ pw, password nl = some pw → pw ⊆ (splitLast nl '@').1.getD []
   host_lower : ∀ h, hostname nl = some h → LowerOf h nl ∧ '@' ∉ h ∧ h ≠ []
   port_le : ∀ n, Py.port nl = some (some n) → n ≤ 65535
 
@@ -358,7 +360,7 @@ theorem hostPortStr_fst_subset (hi : Str) : (hostPortStr hi).1 ⊆ hi := by
 
 theorem netlocFacts (nl : Str) : NetlocFacts nl := by
   have hsl := splitLast_spec nl '@'
-  refine ⟨?_, ?_, ?_, ?_⟩
+  refine ⟨?_, ?_, ?_, ?_, ?_, ?_⟩
   · intro u hu
     unfold username userinfo at hu
     cases hui : (splitLast nl '@').1 with
@@ -382,6 +384,27 @@ theorem netlocFacts (nl : Str) : NetlocFacts nl := by
       have := splitFirst_snd_subset ui ':'
       rw [hpw] at this
       exact fun x hx => hsub (this hx)
+  · intro u hu
+    unfold username userinfo at hu
+    cases hui : (splitLast nl '@').1 with
+    | none => rw [hui] at hu; cases hu
+    | some ui =>
+      rw [hui] at hu
+      simp only [Option.some.injEq] at hu
+      subst hu
+      simp only [Option.getD_some]
+      exact fun x hx => splitFirst_fst_subset ui ':' hx
+  · intro pw hpw
+    unfold password userinfo at hpw
+    cases hui : (splitLast nl '@').1 with
+    | none => rw [hui] at hpw; cases hpw
+    | some ui =>
+      rw [hui] at hpw
+      simp only at hpw
+      have := splitFirst_snd_subset ui ':'
+      rw [hpw] at this
+      simp only [Option.getD_some]
+      exact fun x hx => this hx
   · intro h hh
     unfold hostname hostinfo at hh
     simp only at hh
@@ -955,12 +978,16 @@ def isPunyBad (c : Char) : Bool :=
     isControlChar c || isSpace c
 
 /-- what the round-trip theorems assume of `attempt_to_decode_idna` on top of `PunyLaws`:
-a delimiter, `%`, control or white-space character of the decoded label was in the label
-(tested on the real codec for every label decoded in a run) -/
+a delimiter, `%`, control or white-space character of the decoded label was in the label,
+and a non-empty label does not decode to the empty string (tested on the real codec for
+every label decoded in a run) -/
 structure PunyClean (puny : Str → Str) : Prop where
   clean : ∀ x c, c ∈ puny x → isPunyBad c = true → c ∈ x
+  /-- a label is not decoded to the empty string (the codec's round-trip check `ToASCII`
+  rejects an empty label, `attempt_to_decode_idna` then returns its argument) -/
+  nonempty : ∀ x, x ≠ [] → puny x ≠ []
 
-theorem punyClean_id : PunyClean id := ⟨fun _ _ h _ => h⟩
+theorem punyClean_id : PunyClean id := ⟨fun _ _ h _ => h, fun _ h => h⟩
 
 theorem isSpace_not_lower {c : Char} (h : isSpace c = true) : ¬ (97 ≤ c.toNat ∧ c.toNat ≤ 122) := by
   simp only [isSpace, spaceCodes, List.contains_cons, List.contains_nil, Bool.or_false,
@@ -1508,6 +1535,45 @@ theorem noCtl_finishPath (quoted : Bool) {cp : Str} (h : NoCtl cp) : NoCtl (fini
   · simp only [finishPath, Bool.false_eq_true, if_false]; exact noCtl_safelyUnquote _ h
   · simp only [finishPath, if_true]; exact noCtl_safelyQuote _
 
+/-! ## the netloc `canonicalize_url` prints, in normal form -/
+
+theorem truthy_iff_strOf (o : Option Str) : truthy o = true ↔ strOf o ≠ [] := by
+  cases o with
+  | none => simp [truthy, strOf_none]
+  | some x => rw [strOf_some]; cases x <;> simp [truthy]
+
+/-- the printed host stands between brackets: the parsed host did, and it is not empty -/
+def bflag (puny : Str → Str) (quoted sf : Bool) (p : Parsed) : Bool :=
+  decide (strOf (canonComps puny quoted sf p).host ≠ []) && bracketedHost p.netloc
+
+theorem strOf_bracketHost (nl : Str) (o : Option Str) :
+    strOf (bracketHost nl o) =
+      if (decide (strOf o ≠ []) && bracketedHost nl) = true then '[' :: strOf o ++ [']'] else strOf o := by
+  unfold bracketHost
+  by_cases ht : truthy o = true
+  · have hne := (truthy_iff_strOf o).1 ht
+    have hg : o.getD [] = strOf o := by simp [strOf, ht]
+    by_cases hB : bracketedHost nl = true
+    · simp [ht, hB, hne, strOf_some, hg]
+    · simp [ht, hB, hne]
+  · have hne : strOf o = [] := by
+      cases h0 : strOf o with
+      | nil => rfl
+      | cons c r => exact absurd ((truthy_iff_strOf o).2 (by rw [h0]; simp)) ht
+    simp [ht, hne]
+
+theorem canonParts_netloc_eq (puny : Str → Str) (quoted sf : Bool) (p : Parsed) :
+    (canonParts puny quoted sf p).netloc =
+      authPart (strOf (canonComps puny quoted sf p).user) (strOf (canonComps puny quoted sf p).pass) ++
+        (hostPartB (bflag puny quoted sf p) (strOf (canonComps puny quoted sf p).host) ++
+          portPart (canonComps puny quoted sf p).port) := by
+  show unsplitNetloc _ _ (bracketHost p.netloc (canonComps puny quoted sf p).host) _ = _
+  rw [unsplitNetloc_eq, strOf_bracketHost]
+  unfold hostPartB bflag
+  split
+  · rw [hostPart_bracketed]
+  · rfl
+
 /-! ## `canonParts` is well-formed -/
 
 section
@@ -1517,8 +1583,7 @@ include hpc h
 
 theorem canonComps_path_eq :
     (canonComps puny quoted sf p).path =
-      finishPath quoted (canonPath p.path
-        (!p.query.isEmpty || truthy (if sf then none else some p.fragment))) := by
+      finishPath quoted (canonPath p.path (hasMore puny sf p)) := by
   simp only [canonComps, finishPath]
 
 theorem noCtl_of_sub {x : Str} (hx : x ⊆ rest) : NoCtl x := NoCtl.of_subset hx h.noCtl_rest
@@ -1556,7 +1621,7 @@ theorem noCtl_fragment : NoCtl ((canonComps puny quoted sf p).fragment.getD []) 
 
 theorem noCtl_netloc_new : NoCtl (canonParts puny quoted sf p).netloc := by
   intro c hc
-  simp only [canonParts, unsplitNetloc_eq] at hc
+  rw [canonParts_netloc_eq] at hc
   obtain ⟨hu, hpw, hh⟩ := noCtl_comps hpc quoted sf h
   rcases List.mem_append.1 hc with h1 | h1
   · rcases mem_authPart h1 with h2 | h2 | rfl | rfl
@@ -1565,7 +1630,7 @@ theorem noCtl_netloc_new : NoCtl (canonParts puny quoted sf p).netloc := by
     · decide
     · decide
   · rcases List.mem_append.1 h1 with h2 | h2
-    · rcases mem_hostPart h2 with h3 | rfl | rfl
+    · rcases mem_hostPartB h2 with h3 | rfl | rfl
       · exact hh c h3
       · decide
       · decide
@@ -1583,7 +1648,7 @@ theorem nodelim_netloc_new : ∀ c ∈ (canonParts puny quoted sf p).netloc, isN
       simp only [isNetlocDelim, Bool.or_eq_true, decide_eq_true_eq] at hd
       rcases hd with (rfl | rfl) | rfl <;> simp
     obtain ⟨h1, h2, h3⟩ := delim_not_in_comps hpc quoted sf h hd'
-    simp only [canonParts, unsplitNetloc_eq] at hc
+    rw [canonParts_netloc_eq] at hc
     rcases List.mem_append.1 hc with hc1 | hc1
     · rcases mem_authPart hc1 with h4 | h4 | rfl | rfl
       · exact h1 h4
@@ -1591,7 +1656,7 @@ theorem nodelim_netloc_new : ∀ c ∈ (canonParts puny quoted sf p).netloc, isN
       · revert hd; decide
       · revert hd; decide
     · rcases List.mem_append.1 hc1 with hc2 | hc2
-      · rcases mem_hostPart hc2 with h4 | rfl | rfl
+      · rcases mem_hostPartB hc2 with h4 | rfl | rfl
         · exact h3 h4
         · revert hd; decide
         · revert hd; decide
@@ -1612,8 +1677,7 @@ theorem canonParts_wf (hbr : netlocOk (canonParts puny quoted sf p).netloc = tru
   have hsne : lower S ≠ [] := by
     obtain ⟨⟨c, r, e, _⟩, _⟩ := h.shaped; rw [e]; simp [Py.lower]
   have hpath : (canonParts puny quoted sf p).path = (canonComps puny quoted sf p).path := rfl
-  have hshape := finishPath_shape quoted p.path
-    (!p.query.isEmpty || truthy (if sf then none else some p.fragment)) h.split.path_abs
+  have hshape := finishPath_shape quoted p.path (hasMore puny sf p) h.split.path_abs
   refine
     { scheme_ok := Or.inr (by rw [hscheme]; exact ⟨schemeShaped_lower h.shaped, lower_idem S⟩)
       netloc_nodelim := nodelim_netloc_new hpc quoted sf h
@@ -1679,12 +1743,13 @@ theorem netlocOk_of_no_bracket {nl : Str} (h1 : '[' ∉ nl) (h2 : ']' ∉ nl) : 
   simp only [contains_false_of_not_mem h1, contains_false_of_not_mem h2, bne_self_eq_false,
     Bool.false_eq_true, if_false]
 
-/-- the printed netloc passes the bracket check iff its bracketed host does, when no other
-component holds a bracket -/
-theorem netlocOk_printed (U P H : Str) (port : Option Nat)
-    (hU : '[' ∉ U ∧ ']' ∉ U) (hP : '[' ∉ P ∧ ']' ∉ P) (hH : '[' ∉ H ∧ ']' ∉ H)
-    (hbr : ':' ∈ H → bracketedHostOk H = true) :
-    netlocOk (authPart U P ++ (hostPart H ++ portPart port)) = true := by
+/-- the printed netloc passes the bracket check: the userinfo holds no bracket, the host
+is either bare (no bracket, no colon) or stands between brackets and passes the check -/
+theorem netlocOk_printed (U P H : Str) (b : Bool) (port : Option Nat)
+    (hU : '[' ∉ U ∧ ']' ∉ U) (hP : '[' ∉ P ∧ ']' ∉ P)
+    (hb : b = true → ']' ∉ H ∧ bracketedHostOk H = true)
+    (hnb : b = false → '[' ∉ H ∧ ']' ∉ H ∧ ':' ∉ H) :
+    netlocOk (authPart U P ++ (hostPartB b H ++ portPart port)) = true := by
   have hA : '[' ∉ authPart U P ∧ ']' ∉ authPart U P := by
     constructor <;> intro hm <;> rcases mem_authPart hm with h | h | h | h
     · exact hU.1 h
@@ -1701,46 +1766,44 @@ theorem netlocOk_printed (U P H : Str) (port : Option Nat)
     · revert h; decide
     · cases h
     · revert h; decide
-  have hsw : startsWith H ['['] = false := by
-    cases H with
-    | nil => rfl
-    | cons c r =>
-      rw [startsWith_cons_cons, startsWith_nil]
-      have : c ≠ '[' := fun e => hH.1 (by simp [e])
-      simp [this]
-  by_cases hc : ':' ∈ H
-  · have hp : hostPart H = '[' :: (H ++ [']']) := by unfold hostPart; simp [hc, hsw]
-    rw [hp]
+  cases b with
+  | true =>
+    obtain ⟨hcl, hok⟩ := hb rfl
+    simp only [hostPartB, if_true]
     unfold netlocOk
-    have hL : (authPart U P ++ ('[' :: (H ++ [']']) ++ portPart port)).contains '[' = true :=
+    have hL : (authPart U P ++ ('[' :: H ++ [']'] ++ portPart port)).contains '[' = true :=
       contains_true_of_mem (by simp)
-    have hR : (authPart U P ++ ('[' :: (H ++ [']']) ++ portPart port)).contains ']' = true :=
+    have hR : (authPart U P ++ ('[' :: H ++ [']'] ++ portPart port)).contains ']' = true :=
       contains_true_of_mem (by simp)
     simp only [hL, hR, bne_self_eq_false, Bool.false_eq_true, if_false, if_true]
-    have e : authPart U P ++ ('[' :: (H ++ [']']) ++ portPart port) =
+    have e : authPart U P ++ ('[' :: H ++ [']'] ++ portPart port) =
         authPart U P ++ ('[' :: (H ++ (']' :: portPart port))) := by simp
     rw [e, dropWhile_append_stop _ _ _ (fun c hc => by
         simp only [ne_eq, decide_eq_true_eq]; rintro rfl; exact hA.1 hc)
         (fun c hc => by simp at hc; simp [← hc])]
     simp only [List.drop_succ_cons, List.drop_zero]
     rw [takeWhile_append_stop _ _ _ (fun c hc => by
-        simp only [ne_eq, decide_eq_true_eq]; rintro rfl; exact hH.2 hc)
+        simp only [ne_eq, decide_eq_true_eq]; rintro rfl; exact hcl hc)
         (fun c hc => by simp at hc; simp [← hc])]
-    exact hbr hc
-  · have hp : hostPart H = H := by unfold hostPart; simp [hc]
+    exact hok
+  | false =>
+    obtain ⟨h1, h2, h3⟩ := hnb rfl
+    have hp : hostPartB false H = H := by
+      simp only [hostPartB, Bool.false_eq_true, if_false]
+      unfold hostPart; simp [h3]
     rw [hp]
     apply netlocOk_of_no_bracket
     · intro hm
       rcases List.mem_append.1 hm with h | h
       · exact hA.1 h
       · rcases List.mem_append.1 h with h | h
-        · exact hH.1 h
+        · exact h1 h
         · exact hpp.1 h
     · intro hm
       rcases List.mem_append.1 hm with h | h
       · exact hA.2 h
       · rcases List.mem_append.1 h with h | h
-        · exact hH.2 h
+        · exact h2 h
         · exact hpp.2 h
 
 theorem lower_length (s : Str) : (lower s).length = s.length := by simp [Py.lower]
@@ -1763,25 +1826,288 @@ theorem lowerHost_of_lower_fixed (s : Str) (h : lower s = s) : lowerHost s = s :
     have := (List.append_inj h2 (lower_length _)).1
     rw [this]; exact hspec.2.symm
 
+/-! ## brackets of an accepted netloc: none in the userinfo, at most the pair of an ip literal -/
+
+theorem hostinfoStr_subset (nl : Str) : hostinfoStr nl ⊆ nl := by
+  have hsl := splitLast_spec nl '@'
+  unfold hostinfoStr
+  cases hui : (splitLast nl '@').1 with
+  | none => rw [hsl.2 hui]; exact fun x hx => hx
+  | some ui => intro x hx; rw [hsl.1 ui hui]; simp [hx]
+
+/-- the netloc is its userinfo, `@`, its host part — or the host part alone -/
+theorem netloc_decomp (nl : Str) :
+    nl = hostinfoStr nl ∧ (splitLast nl '@').1 = none ∨
+    ∃ ui, (splitLast nl '@').1 = some ui ∧ nl = ui ++ '@' :: hostinfoStr nl := by
+  have hsl := splitLast_spec nl '@'
+  unfold hostinfoStr
+  cases hui : (splitLast nl '@').1 with
+  | none => exact Or.inl ⟨(hsl.2 hui).symm, rfl⟩
+  | some ui => exact Or.inr ⟨ui, rfl, hsl.1 ui hui⟩
+
+theorem userinfoBrackets_false {nl : Str} (h : userinfoBrackets nl = false) :
+    '[' ∉ (splitLast nl '@').1.getD [] ∧ ']' ∉ (splitLast nl '@').1.getD [] := by
+  unfold userinfoBrackets at h
+  rw [Bool.or_eq_false_iff] at h
+  constructor
+  · intro hm; rw [contains_true_of_mem hm] at h; exact absurd h.1 (by simp)
+  · intro hm; rw [contains_true_of_mem hm] at h; exact absurd h.2 (by simp)
+
+/-- a bracket of an accepted netloc stands in its host part -/
+theorem mem_hostinfo_of_bracket {nl : Str} (hui : userinfoBrackets nl = false) {c : Char}
+    (hc : c = '[' ∨ c = ']') (hm : c ∈ nl) : c ∈ hostinfoStr nl := by
+  obtain ⟨h1, h2⟩ := userinfoBrackets_false hui
+  rcases netloc_decomp nl with ⟨e, _⟩ | ⟨ui, hu, e⟩
+  · rw [← e]; exact hm
+  · rw [hu] at h1 h2
+    simp only [Option.getD_some] at h1 h2
+    rw [e] at hm
+    simp only [List.mem_append, List.mem_cons] at hm
+    rcases hm with hm | hm | hm
+    · rcases hc with rfl | rfl
+      · exact absurd hm h1
+      · exact absurd hm h2
+    · rcases hc with rfl | rfl <;> cases hm
+    · exact hm
+
+/-- no bracket at all when the host part opens none -/
+theorem no_bracket_of_unbracketed {nl : Str} (hok : netlocOk nl = true)
+    (hui : userinfoBrackets nl = false) (hB : bracketedHost nl = false) :
+    '[' ∉ nl ∧ ']' ∉ nl := by
+  have hL : '[' ∉ nl := by
+    intro hm
+    have := mem_hostinfo_of_bracket hui (Or.inl rfl) hm
+    unfold bracketedHost at hB
+    rw [contains_true_of_mem this] at hB; cases hB
+  refine ⟨hL, ?_⟩
+  intro hR
+  unfold netlocOk at hok
+  rw [contains_false_of_not_mem hL, contains_true_of_mem hR] at hok
+  simp at hok
+
+theorem dropWhile_ne_nil_of_mem {α : Type} (q : α → Bool) (l : List α) (x : α) (hx : x ∈ l)
+    (hq : q x = false) : l.dropWhile q ≠ [] := by
+  induction l with
+  | nil => simp at hx
+  | cons c l ih =>
+    by_cases hc : q c = true
+    · simp only [List.dropWhile_cons, hc, if_true]
+      simp only [List.mem_cons] at hx
+      rcases hx with rfl | hx
+      · rw [hq] at hc; cases hc
+      · exact ih hx
+    · simp [List.dropWhile_cons, hc]
+
+theorem dropWhile_prefix_stop {α : Type} (q : α → Bool) (a b : List α) (ha : ∀ c ∈ a, q c = true) :
+    (a ++ b).dropWhile q = b.dropWhile q := by
+  induction a with
+  | nil => rfl
+  | cons c a ih =>
+    simp only [List.cons_append, List.dropWhile_cons, ha c (by simp), if_true]
+    exact ih (fun x hx => ha x (by simp [hx]))
+
+/-- **the text the bracket check reads is the host**: in an accepted netloc whose host part
+opens a bracket, `urlsplit` validated exactly what `_hostinfo` returns as the host -/
+theorem bracket_text {nl : Str} (hok : netlocOk nl = true) (hui : userinfoBrackets nl = false)
+    (hB : bracketedHost nl = true) :
+    bracketedHostOk (hostPortStr (hostinfoStr nl)).1 = true ∧
+      ']' ∉ (hostPortStr (hostinfoStr nl)).1 := by
+  have hmem : '[' ∈ hostinfoStr nl := List.contains_iff_mem.1 hB
+  -- the host, as `_hostinfo` reads it
+  have hhost : (hostPortStr (hostinfoStr nl)).1 =
+      (((hostinfoStr nl).dropWhile (· ≠ '[')).drop 1).takeWhile (· ≠ ']') := by
+    unfold hostPortStr
+    rw [splitFirst_eq (hostinfoStr nl) '[']
+    cases hd : (hostinfoStr nl).dropWhile (· ≠ '[') with
+    | nil =>
+      exact absurd hd (dropWhile_ne_nil_of_mem _ _ '[' hmem (by simp))
+    | cons x br =>
+      simp only [List.drop_succ_cons, List.drop_zero]
+      rw [splitFirst_eq br ']']
+  -- the netloc's first `[` is the host part's
+  have hdw : nl.dropWhile (· ≠ '[') = (hostinfoStr nl).dropWhile (· ≠ '[') := by
+    obtain ⟨h1, _⟩ := userinfoBrackets_false hui
+    rcases netloc_decomp nl with ⟨e, _⟩ | ⟨ui, hu, e⟩
+    · rw [← e]
+    · rw [hu] at h1
+      simp only [Option.getD_some] at h1
+      have e' : nl = (ui ++ ['@']) ++ hostinfoStr nl := e.trans (by simp)
+      conv => lhs; rw [e']
+      apply dropWhile_prefix_stop
+      intro c hc
+      simp only [List.mem_append, List.mem_singleton] at hc
+      rcases hc with hc | rfl
+      · simp only [ne_eq, decide_eq_true_eq]; rintro rfl; exact h1 hc
+      · decide
+  have hL : nl.contains '[' = true := contains_true_of_mem (hostinfoStr_subset nl hmem)
+  unfold netlocOk at hok
+  simp only [hL] at hok
+  by_cases hR : nl.contains ']' = true
+  · simp only [hR, bne_self_eq_false, Bool.false_eq_true, if_false, if_true] at hok
+    rw [hdw, ← hhost] at hok
+    refine ⟨hok, ?_⟩
+    rw [hhost]
+    intro hm
+    have := mem_takeWhile_s20 _ _ _ hm
+    simp at this
+  · have hR' : nl.contains ']' = false := by simpa using hR
+    rw [hR'] at hok
+    simp at hok
+
+theorem bracketedHostOk_nil : bracketedHostOk [] = false := by decide
+
+/-- the parsed host holds no closing bracket -/
+theorem hostname_no_close {nl : Str} (hok : netlocOk nl = true) (hui : userinfoBrackets nl = false)
+    (h : Str) (hh : hostname nl = some h) : ']' ∉ h := by
+  have hraw : ']' ∉ (hostPortStr (hostinfoStr nl)).1 := by
+    by_cases hB : bracketedHost nl = true
+    · exact (bracket_text hok hui hB).2
+    · have := (no_bracket_of_unbracketed hok hui (by simpa using hB)).2
+      exact fun hm => this (hostinfoStr_subset nl (hostPortStr_fst_subset _ hm))
+  unfold hostname hostinfo at hh
+  simp only at hh
+  split at hh
+  · cases hh
+  · simp only [Option.some.injEq] at hh
+    rw [← hh]
+    exact (lowerOf_lowerHost _ _ (fun x hx => hx)).not_mem hraw (by decide)
+
+/-- a host that opens no bracket holds no colon (the port was cut off at the first one) -/
+theorem hostname_no_colon (nl : Str) (hb : bracketedHost nl = false) (h : Str)
+    (hh : hostname nl = some h) : ':' ∉ h := by
+  unfold hostname hostinfo at hh
+  simp only at hh
+  split at hh
+  · cases hh
+  · simp only [Option.some.injEq] at hh
+    have hnb : '[' ∉ hostinfoStr nl := by
+      intro hm
+      unfold bracketedHost at hb
+      rw [contains_true_of_mem hm] at hb; cases hb
+    have hps : (hostPortStr (hostinfoStr nl)).1 = (splitFirst (hostinfoStr nl) ':').1 := by
+      unfold hostPortStr
+      rw [splitFirst_notMem_s20 _ _ hnb]
+    have hc : ':' ∉ (hostPortStr (hostinfoStr nl)).1 := by
+      rw [hps]; exact (splitFirst_spec_s20 _ ':').1
+    rw [← hh]
+    exact (lowerOf_lowerHost _ _ (fun x hx => hx)).not_mem hc (by decide)
+
+/-- the host of a bracketed, accepted netloc: the lower-cased text the bracket check read -/
+theorem hostname_bracketed {nl : Str} (hok : netlocOk nl = true) (hui : userinfoBrackets nl = false)
+    (hB : bracketedHost nl = true) :
+    hostname nl = some (lowerHost (hostPortStr (hostinfoStr nl)).1) ∧
+      bracketedHostOk (hostPortStr (hostinfoStr nl)).1 = true := by
+  obtain ⟨h1, _⟩ := bracket_text hok hui hB
+  refine ⟨?_, h1⟩
+  unfold hostname hostinfo
+  simp only
+  split
+  · rename_i he
+    rw [he] at h1; rw [bracketedHostOk_nil] at h1; cases h1
+  · rfl
+
+/-- a netloc without any bracket: nothing to reject, nothing to keep -/
+theorem no_bracket_facts {nl : Str} (hb : '[' ∉ nl ∧ ']' ∉ nl) :
+    userinfoBrackets nl = false ∧ bracketedHost nl = false := by
+  have hsl := splitLast_spec nl '@'
+  constructor
+  · unfold userinfoBrackets
+    cases hui : (splitLast nl '@').1 with
+    | none => simp
+    | some ui =>
+      have hsub : ui ⊆ nl := by intro x hx; rw [hsl.1 ui hui]; simp [hx]
+      simp only [Option.getD_some, Bool.or_eq_false_iff]
+      exact ⟨contains_false_of_not_mem (fun hm => hb.1 (hsub hm)),
+        contains_false_of_not_mem (fun hm => hb.2 (hsub hm))⟩
+  · unfold bracketedHost
+    exact contains_false_of_not_mem (fun hm => hb.1 (hostinfoStr_subset nl hm))
+
 /-! ## re-parsing the printed result -/
 
-/-- the old components hold no bracket other than the pair around an IP literal (the region
-outside is KF-C01-1 / KF-C01-2: `canonicalize_url` prints a URL that no longer parses) -/
-structure NoOddBracket (p : Parsed) : Prop where
-  user : ∀ u, p.username = some u → '[' ∉ u ∧ ']' ∉ u
-  pass : ∀ u, p.password = some u → '[' ∉ u ∧ ']' ∉ u
-  host : ∀ h, p.hostname = some h → '[' ∉ h ∧ ']' ∉ h
-
-/-- what the parser reads from the printed result, in terms of the components
-`canonComps` computed: a falsy user / password / host reads back as absent (a password
-without user gives the empty user) -/
-def reparsed (c : Comps) : Parsed :=
-  { scheme := c.scheme, netloc := unsplitNetloc c.user c.pass c.host c.port, path := c.path,
+/-- what the parser reads from the printed result, in terms of the printed netloc and the
+components `canonComps` computed: a falsy user / password / host reads back as absent (a
+password without user gives the empty user) -/
+def reparsed (nl : Str) (c : Comps) : Parsed :=
+  { scheme := c.scheme, netloc := nl, path := c.path,
     query := c.query, fragment := c.fragment.getD [],
     username := if strOf c.pass ≠ [] ∨ strOf c.user ≠ [] then some (strOf c.user) else none,
     password := if strOf c.pass ≠ [] then some (strOf c.pass) else none,
     hostname := if strOf c.host = [] then none else some (strOf c.host),
     port := c.port }
+
+/-- the parse of what `canonicalize_url` prints for the parse `p` -/
+def reparsedOf (puny : Str → Str) (quoted sf : Bool) (p : Parsed) : Parsed :=
+  reparsed (canonParts puny quoted sf p).netloc (canonComps puny quoted sf p)
+
+/-- what the proofs need to know about the canonical host `H` and the flag `b` ("printed
+between brackets") -/
+structure HostFacts (b : Bool) (H : Str) : Prop where
+  noAt : '@' ∉ H
+  closed : ']' ∉ H
+  bare : b = false → '[' ∉ H ∧ ':' ∉ H
+  ok : b = true → bracketedHostOk H = true
+
+theorem startsWith_append_left (a b c : Str) : startsWith (a ++ b) (a ++ c) = startsWith b c := by
+  induction a with
+  | nil => rfl
+  | cons x a ih => simp only [List.cons_append, startsWith_cons_cons, ih]; simp
+
+/-- **what `canonicalize_url` prints**: `scheme://netloc path ?query #fragment`, whatever
+`uses_netloc` says about the scheme (the `//` of an empty authority is put back) -/
+theorem printSplit_normal (s : Split) (hs : s.scheme ≠ [])
+    (hpa : s.path = [] ∨ ∃ q, s.path = '/' :: q) (hp2 : startsWith s.path ['/', '/'] = false) :
+    printSplit s = s.scheme ++ ':' :: '/' :: '/' :: (s.netloc ++ (s.path ++
+      (queryPart s.query ++ fragPart (s.fragment.getD [])))) := by
+  unfold printSplit
+  simp only
+  rw [urlunsplit_eq_urlunsplit20, urlunsplit20_eq]
+  have hsp : schemePart s.scheme = s.scheme ++ [':'] := by simp [schemePart, hs]
+  rw [hsp]
+  by_cases hc : (decide (s.netloc ≠ []) || (decide (s.scheme ≠ []) && inTable usesNetloc20 s.scheme &&
+      !startsWith s.path ['/', '/'])) = true
+  · rw [bodyOf_true _ _ _ hc hpa]
+    have e1 : s.scheme ++ [':'] ++ ('/' :: '/' :: (s.netloc ++ s.path) ++
+        (queryPart s.query ++ fragPart (s.fragment.getD []))) =
+        s.scheme ++ (':' :: '/' :: '/' :: (s.netloc ++ (s.path ++
+          (queryPart s.query ++ fragPart (s.fragment.getD []))))) := by simp
+    rw [e1]
+    have hsw : startsWith (s.scheme ++ (':' :: '/' :: '/' :: (s.netloc ++ (s.path ++
+        (queryPart s.query ++ fragPart (s.fragment.getD [])))))) (s.scheme ++ [':', '/', '/']) = true := by
+      rw [startsWith_append_left]
+      simp [startsWith_cons_cons, startsWith_nil]
+    rw [if_neg (fun hh => hh.2.2 hsw)]
+  · rw [bodyOf_false _ _ _ hc]
+    have hn : s.netloc = [] := by
+      simp only [Bool.or_eq_true, decide_eq_true_eq, not_or] at hc
+      exact Classical.not_not.1 hc.1
+    have hsw : startsWith (s.scheme ++ [':'] ++ (s.path ++
+        (queryPart s.query ++ fragPart (s.fragment.getD [])))) (s.scheme ++ [':', '/', '/']) = false := by
+      have e1 : s.scheme ++ [':'] ++ (s.path ++ (queryPart s.query ++ fragPart (s.fragment.getD []))) =
+          s.scheme ++ (':' :: (s.path ++ (queryPart s.query ++ fragPart (s.fragment.getD [])))) := by simp
+      rw [e1, startsWith_append_left, startsWith_cons_cons]
+      have := startsWith2_append s.path (queryPart s.query ++ fragPart (s.fragment.getD [])) hp2
+        (fun c hc' => by
+          rcases tail_head _ _ c hc' with rfl | rfl <;> decide)
+      simp [this]
+    have hcond : ¬ s.scheme.isEmpty = true ∧ s.netloc.isEmpty = true ∧
+        ¬ startsWith (s.scheme ++ [':'] ++ (s.path ++
+          (queryPart s.query ++ fragPart (s.fragment.getD [])))) (s.scheme ++ [':', '/', '/']) = true :=
+      ⟨by simpa using hs, by simp [hn], by rw [hsw]; simp⟩
+    rw [if_pos hcond, hn]
+    have e2 : (s.scheme ++ [':'] ++ (s.path ++ (queryPart s.query ++ fragPart (s.fragment.getD [])))).drop
+        (s.scheme.length + 1) = s.path ++ (queryPart s.query ++ fragPart (s.fragment.getD [])) := by
+      have : (s.scheme ++ [':']).length = s.scheme.length + 1 := by simp
+      rw [← this, List.drop_left]
+    rw [e2]
+    simp
+
+/-- with a non-empty netloc the patched serialisation is plain `urlunsplit` -/
+theorem printSplit_of_netloc (s : Split) (hn : s.netloc ≠ []) : printSplit s = urlunsplit s := by
+  unfold printSplit
+  simp only
+  rw [if_neg]
+  intro hh
+  exact hn (by simpa using hh.2.1)
 
 section
 variable {puny : Str → Str} (hpc : PunyClean puny) (quoted sf : Bool) {S rest : Str} {p : Parsed}
@@ -1805,105 +2131,194 @@ theorem host_lower_fixed :
     · simp only [hu, Bool.false_eq_true, if_false, strOf_some]
       unfold canonHost; exact lower_idem _
 
-theorem new_comps_no_bracket (hnb : NoOddBracket p) :
+/-- the new userinfo holds no bracket when the old one holds none -/
+theorem new_comps_no_bracket (hui : userinfoBrackets p.netloc = false) :
     ('[' ∉ strOf (canonComps puny quoted sf p).user ∧ ']' ∉ strOf (canonComps puny quoted sf p).user) ∧
     ('[' ∉ strOf (canonComps puny quoted sf p).pass ∧ ']' ∉ strOf (canonComps puny quoted sf p).pass) := by
+  obtain ⟨g1, g2⟩ := userinfoBrackets_false hui
+  have hf := netlocFacts p.netloc
   refine ⟨⟨?_, ?_⟩, ⟨?_, ?_⟩⟩
   · intro hm
     obtain ⟨u, _, _, hu, hcu⟩ := user_mem hpc quoted sf h hm
-    exact requote_auth_not_mem (by simp) quoted u (hnb.user u hu).1 hcu
+    have hs := hf.user_ui u (by rw [← h.user]; exact hu)
+    exact requote_auth_not_mem (by simp) quoted u (fun hh => g1 (hs hh)) hcu
   · intro hm
     obtain ⟨u, _, _, hu, hcu⟩ := user_mem hpc quoted sf h hm
-    exact requote_auth_not_mem (by simp) quoted u (hnb.user u hu).2 hcu
+    have hs := hf.user_ui u (by rw [← h.user]; exact hu)
+    exact requote_auth_not_mem (by simp) quoted u (fun hh => g2 (hs hh)) hcu
   · intro hm
     obtain ⟨u, _, hu, hcu⟩ := pass_mem hpc quoted sf h hm
-    exact requote_auth_not_mem (by simp) quoted u (hnb.pass u hu).1 hcu
+    have hs := hf.pass_ui u (by rw [← h.pass]; exact hu)
+    exact requote_auth_not_mem (by simp) quoted u (fun hh => g1 (hs hh)) hcu
   · intro hm
     obtain ⟨u, _, hu, hcu⟩ := pass_mem hpc quoted sf h hm
-    exact requote_auth_not_mem (by simp) quoted u (hnb.pass u hu).2 hcu
+    have hs := hf.pass_ui u (by rw [← h.pass]; exact hu)
+    exact requote_auth_not_mem (by simp) quoted u (fun hh => g2 (hs hh)) hcu
 
-theorem netlocOk_new (hnb : NoOddBracket p)
-    (hbr : ':' ∈ strOf (canonComps puny quoted sf p).host →
+theorem user_no_colon : ':' ∉ strOf (canonComps puny quoted sf p).user := by
+  intro hm
+  obtain ⟨u, _, hcol, _, hcu⟩ := user_mem hpc quoted sf h hm
+  exact requote_auth_not_mem (by simp) quoted u hcol hcu
+
+theorem port_le : ∀ n ∈ (canonComps puny quoted sf p).port, n ≤ 65535 := by
+  intro n hn
+  have hle := (netlocFacts p.netloc).port_le
+  simp only [canonComps] at hn
+  cases hpp : p.port with
+  | none => rw [hpp] at hn; simp at hn
+  | some m =>
+    rw [hpp] at hn
+    simp only at hn
+    split at hn
+    · simp at hn
+    · simp only [Option.mem_def, Option.some.injEq] at hn
+      subst hn
+      exact hle m (by rw [h.port, hpp])
+
+/-- the facts about the canonical host, given that the bracket check still passes on it when
+it is an ip literal (`hbr`, discharged by `bracketedHostOk_canon` below) -/
+theorem hostFacts (hui : userinfoBrackets p.netloc = false)
+    (hbr : bracketedHost p.netloc = true →
       bracketedHostOk (strOf (canonComps puny quoted sf p).host) = true) :
-    netlocOk (canonParts puny quoted sf p).netloc = true := by
-  have hacc := accessor_hyps hpc quoted sf h hnb.host
-  obtain ⟨hu, hpw⟩ := new_comps_no_bracket hpc quoted sf h hnb
-  show netlocOk (unsplitNetloc _ _ _ _) = true
-  rw [unsplitNetloc_eq]
-  exact netlocOk_printed _ _ _ _ hu hpw ⟨hacc.2.1.2.1, hacc.2.1.2.2⟩ hbr
-
-/-- **re-parsing the printed result gives the computed components back** -/
-theorem parseUrl_printed (hnb : NoOddBracket p)
-    (hbr : ':' ∈ strOf (canonComps puny quoted sf p).host →
-      bracketedHostOk (strOf (canonComps puny quoted sf p).host) = true) :
-    parseUrl (urlunsplit (canonParts puny quoted sf p)) =
-      some (reparsed (canonComps puny quoted sf p)) := by
-  have hok := netlocOk_new hpc quoted sf h hnb hbr
-  have hwf := canonParts_wf hpc quoted sf h hok
-  have hacc := accessor_hyps hpc quoted sf h hnb.host
-  obtain ⟨a1, a2, a3, a4⟩ := accessors_unsplitNetloc (canonComps puny quoted sf p).user
-    (canonComps puny quoted sf p).pass (canonComps puny quoted sf p).host
-    (canonComps puny quoted sf p).port hacc.1 hacc.2.1 hacc.2.2
-  rw [urlunsplit_eq_urlunsplit20]
-  unfold parseUrl
-  rw [urlsplit_urlunsplit20 _ _ _ _ _ hwf]
-  have hnl : (canonParts puny quoted sf p).netloc =
-      unsplitNetloc (canonComps puny quoted sf p).user (canonComps puny quoted sf p).pass
-        (canonComps puny quoted sf p).host (canonComps puny quoted sf p).port := rfl
-  simp only [hnl, a4]
-  simp only [parsedOf, reparsed, a1, a2, a3, canonParts,
-    lowerHost_of_lower_fixed _ (host_lower_fixed hpc quoted sf h)]
-
-end
-
-/-! ## netlocs without brackets need no side condition -/
-
-theorem hostname_no_colon (nl : Str) (hb : '[' ∉ nl) (h : Str) (hh : hostname nl = some h) :
-    ':' ∉ h := by
-  unfold hostname hostinfo at hh
-  simp only at hh
-  split at hh
-  · cases hh
-  · simp only [Option.some.injEq] at hh
-    have hsl := splitLast_spec nl '@'
-    have hsub0 : hostinfoStr nl ⊆ nl := by
-      unfold hostinfoStr
-      cases hui : (splitLast nl '@').1 with
-      | none => rw [hsl.2 hui]; exact fun x hx => hx
-      | some ui => intro x hx; rw [hsl.1 ui hui]; simp [hx]
-    have hnb : '[' ∉ hostinfoStr nl := fun hm => hb (hsub0 hm)
-    have hps : (hostPortStr (hostinfoStr nl)).1 = (splitFirst (hostinfoStr nl) ':').1 := by
-      unfold hostPortStr
-      rw [splitFirst_notMem_s20 _ _ hnb]
-    have hc : ':' ∉ (hostPortStr (hostinfoStr nl)).1 := by
-      rw [hps]; exact (splitFirst_spec_s20 _ ':').1
-    rw [← hh]
-    exact (lowerOf_lowerHost _ _ (fun x hx => hx)).not_mem hc (by decide)
-
-section
-variable {puny : Str → Str} (hpc : PunyClean puny) (quoted sf : Bool) {S rest : Str} {p : Parsed}
-  (h : FromParse S rest p)
-include hpc h
-
-/-- a netloc without brackets (any registered name or IPv4 host, any userinfo) meets both
-side conditions of `parseUrl_printed` -/
-theorem side_conditions_of_no_bracket (hb : '[' ∉ p.netloc ∧ ']' ∉ p.netloc) :
-    NoOddBracket p ∧ ':' ∉ strOf (canonComps puny quoted sf p).host := by
-  have hf := netlocFacts p.netloc
-  refine ⟨⟨?_, ?_, ?_⟩, ?_⟩
-  · intro u hu
-    have := (hf.user_sub u (by rw [← h.user]; exact hu)).1
-    exact ⟨fun hm => hb.1 (this hm), fun hm => hb.2 (this hm)⟩
-  · intro u hu
-    have := hf.pass_sub u (by rw [← h.pass]; exact hu)
-    exact ⟨fun hm => hb.1 (this hm), fun hm => hb.2 (this hm)⟩
-  · intro h0 hh
-    have := (hf.host_lower h0 (by rw [← h.host]; exact hh)).1
-    exact ⟨this.not_mem hb.1 (by decide), this.not_mem hb.2 (by decide)⟩
+    HostFacts (bflag puny quoted sf p) (strOf (canonComps puny quoted sf p).host) := by
+  refine ⟨?_, ?_, ?_, ?_⟩
+  · intro hm
+    obtain ⟨h0, _, hat, _, hch⟩ := host_mem hpc quoted sf h hm
+    exact hat (canonHost_bad puny hpc h0 (by decide) hch)
   · intro hm
     obtain ⟨h0, _, _, hh, hch⟩ := host_mem hpc quoted sf h hm
-    have := canonHost_bad puny hpc h0 (by decide) hch
-    exact hostname_no_colon p.netloc hb.1 h0 (by rw [← h.host]; exact hh) this
+    exact hostname_no_close h.split.ok hui h0 (by rw [← h.host]; exact hh)
+      (canonHost_bad puny hpc h0 (by decide) hch)
+  · intro hb
+    unfold bflag at hb
+    rw [Bool.and_eq_false_iff] at hb
+    rcases hb with hb | hb
+    · have : strOf (canonComps puny quoted sf p).host = [] := by simpa using hb
+      rw [this]; simp
+    · obtain ⟨n1, _⟩ := no_bracket_of_unbracketed h.split.ok hui hb
+      constructor
+      · intro hm
+        obtain ⟨h0, hl, _, _, hch⟩ := host_mem hpc quoted sf h hm
+        exact hl.not_mem n1 (by decide) (canonHost_bad puny hpc h0 (by decide) hch)
+      · intro hm
+        obtain ⟨h0, _, _, hh, hch⟩ := host_mem hpc quoted sf h hm
+        exact hostname_no_colon p.netloc hb h0 (by rw [← h.host]; exact hh)
+          (canonHost_bad puny hpc h0 (by decide) hch)
+  · intro hb
+    unfold bflag at hb
+    rw [Bool.and_eq_true] at hb
+    exact hbr hb.2
+
+theorem netlocOk_new (hui : userinfoBrackets p.netloc = false)
+    (hbr : bracketedHost p.netloc = true →
+      bracketedHostOk (strOf (canonComps puny quoted sf p).host) = true) :
+    netlocOk (canonParts puny quoted sf p).netloc = true := by
+  have hf := hostFacts hpc quoted sf h hui hbr
+  obtain ⟨hu, hpw⟩ := new_comps_no_bracket hpc quoted sf h hui
+  rw [canonParts_netloc_eq]
+  exact netlocOk_printed _ _ _ _ _ hu hpw (fun hb => ⟨hf.closed, hf.ok hb⟩)
+    (fun hb => ⟨(hf.bare hb).1, hf.closed, (hf.bare hb).2⟩)
+
+/-- the printed result, spelled out -/
+theorem printed_eq :
+    printSplit (canonParts puny quoted sf p) =
+      lower S ++ ':' :: '/' :: '/' :: ((canonParts puny quoted sf p).netloc ++
+        ((canonParts puny quoted sf p).path ++
+          (queryPart (canonParts puny quoted sf p).query ++
+            fragPart ((canonParts puny quoted sf p).fragment.getD [])))) := by
+  have hscheme : (canonParts puny quoted sf p).scheme = lower S := h.split.scheme
+  have hsne : lower S ≠ [] := by
+    obtain ⟨⟨c, r, e, _⟩, _⟩ := h.shaped; rw [e]; simp [Py.lower]
+  have hshape := finishPath_shape quoted p.path (hasMore puny sf p) h.split.path_abs
+  have hpath : (canonParts puny quoted sf p).path =
+      finishPath quoted (canonPath p.path (hasMore puny sf p)) := canonComps_path_eq hpc quoted sf h
+  rw [printSplit_normal _ (by rw [hscheme]; exact hsne) (by rw [hpath]; exact hshape.1)
+    (by rw [hpath]; exact hshape.2), hscheme]
+
+/-- **re-parsing the printed result gives the computed components back** -/
+theorem parseUrl_printed (hui : userinfoBrackets p.netloc = false)
+    (hbr : bracketedHost p.netloc = true →
+      bracketedHostOk (strOf (canonComps puny quoted sf p).host) = true) :
+    parseUrl (printSplit (canonParts puny quoted sf p)) = some (reparsedOf puny quoted sf p) := by
+  have hok := netlocOk_new hpc quoted sf h hui hbr
+  have hwf := canonParts_wf hpc quoted sf h hok
+  have hf := hostFacts hpc quoted sf h hui hbr
+  have hscheme : (canonParts puny quoted sf p).scheme = lower S := h.split.scheme
+  have hshape := finishPath_shape quoted p.path (hasMore puny sf p) h.split.path_abs
+  have hpath : (canonParts puny quoted sf p).path =
+      finishPath quoted (canonPath p.path (hasMore puny sf p)) := canonComps_path_eq hpc quoted sf h
+  obtain ⟨a1, a2, a3, a4, _⟩ := accessors_printed (strOf (canonComps puny quoted sf p).user)
+    (strOf (canonComps puny quoted sf p).pass) (strOf (canonComps puny quoted sf p).host)
+    (bflag puny quoted sf p) (canonComps puny quoted sf p).port
+    (user_no_colon hpc quoted sf h) hf.noAt (fun _ => hf.closed)
+    (fun hb => ⟨(hf.bare hb).1, hf.closed⟩) (port_le hpc quoted sf h)
+  rw [printed_eq hpc quoted sf h]
+  unfold parseUrl
+  rw [urlsplit_normal (lower S) _ _ _ _ (schemeShaped_lower h.shaped) (lower_idem S)
+    hwf.netloc_nodelim hok hwf.path_noq hwf.path_noh hwf.query_noh
+    (by rw [hpath]; exact hshape.1) (by rw [← hscheme]; exact hwf.clean)]
+  simp only
+  rw [canonParts_netloc_eq, a4]
+  simp only [parsedOf, reparsedOf, reparsed, a1, a2, a3, canonParts_netloc_eq,
+    lowerHost_of_lower_fixed _ (host_lower_fixed hpc quoted sf h), ← hscheme]
+  rfl
+
+/-- the userinfo of the printed netloc holds no bracket: the second call accepts it -/
+theorem userinfoBrackets_printed (hui : userinfoBrackets p.netloc = false)
+    (hbr : bracketedHost p.netloc = true →
+      bracketedHostOk (strOf (canonComps puny quoted sf p).host) = true) :
+    userinfoBrackets (canonParts puny quoted sf p).netloc = false := by
+  have hf := hostFacts hpc quoted sf h hui hbr
+  obtain ⟨⟨u1, u2⟩, ⟨p1, p2⟩⟩ := new_comps_no_bracket hpc quoted sf h hui
+  rw [canonParts_netloc_eq]
+  unfold userinfoBrackets
+  rw [splitLast_auth _ _ _ (at_not_mem_restB _ _ _ hf.noAt)]
+  split
+  · simp only [Option.getD_some, Bool.or_eq_false_iff]
+    constructor <;> apply contains_false_of_not_mem <;> intro hm <;>
+      simp only [List.mem_append, List.mem_cons] at hm
+    · rcases hm with hm | hm | hm
+      · exact u1 hm
+      · cases hm
+      · exact p1 hm
+    · rcases hm with hm | hm | hm
+      · exact u2 hm
+      · cases hm
+      · exact p2 hm
+  · split
+    · simp only [Option.getD_some, Bool.or_eq_false_iff]
+      exact ⟨contains_false_of_not_mem u1, contains_false_of_not_mem u2⟩
+    · simp
+
+/-- the host part of the printed netloc opens a bracket exactly when the host is printed
+between brackets -/
+theorem bracketedHost_printed (hui : userinfoBrackets p.netloc = false)
+    (hbr : bracketedHost p.netloc = true →
+      bracketedHostOk (strOf (canonComps puny quoted sf p).host) = true) :
+    bracketedHost (canonParts puny quoted sf p).netloc = bflag puny quoted sf p := by
+  have hf := hostFacts hpc quoted sf h hui hbr
+  obtain ⟨_, _, _, _, a5⟩ := accessors_printed (strOf (canonComps puny quoted sf p).user)
+    (strOf (canonComps puny quoted sf p).pass) (strOf (canonComps puny quoted sf p).host)
+    (bflag puny quoted sf p) (canonComps puny quoted sf p).port
+    (user_no_colon hpc quoted sf h) hf.noAt (fun _ => hf.closed)
+    (fun hb => ⟨(hf.bare hb).1, hf.closed⟩) (port_le hpc quoted sf h)
+  unfold bracketedHost
+  rw [canonParts_netloc_eq, a5]
+  cases hb : bflag puny quoted sf p with
+  | true => exact contains_true_of_mem (by simp [hostPartB])
+  | false =>
+    apply contains_false_of_not_mem
+    intro hm
+    rcases List.mem_append.1 hm with h1 | h1
+    · have hp : hostPartB false (strOf (canonComps puny quoted sf p).host) =
+          strOf (canonComps puny quoted sf p).host := by
+        simp only [hostPartB, Bool.false_eq_true, if_false]
+        unfold hostPart; simp [(hf.bare hb).2]
+      rw [hp] at h1
+      exact (hf.bare hb).1 h1
+    · rcases mem_portPart h1 with h2 | h2
+      · cases h2
+      · revert h2; decide
 
 end
 
